@@ -65,6 +65,13 @@ VIEW_METHODS = {
     'transpose', 'xs', 'take', 'view', 'reshape', 'ravel', 'swapaxes', 'swaplevel', 'get_level_values',
     'to_records', '__getitem__', 'set_axis', 'pipe', 'droplevel_', 'asof', 'at_time', 'between_time', 'truncate',
     'iteritems', '__iter__', '__next__', 'elements', 'most_common',
+    # altair chart builders (return new chart objects referring to the same data)
+    'mark_circle', 'mark_line', 'mark_point', 'mark_bar', 'mark_area', 'mark_text', 'mark_rule', 'mark_errorband',
+    'mark_errorbar', 'mark_tick', 'mark_boxplot', 'mark_rect', 'mark_square', 'encode', 'properties', 'interactive',
+    'facet', 'layer', 'resolve_scale', 'add_params', 'add_selection', 'transform_filter', 'transform_calculate',
+    'transform_fold', 'transform_density', 'transform_regression', 'transform_loess', 'transform_window',
+    'transform_aggregate', 'transform_joinaggregate', 'transform_quantile', 'configure_axis', 'configure_view',
+    'configure_legend', 'configure_title', 'configure', 'to_dict_', 'bind_scales',
 }
 # the receiver IS mutated in place (pandas / numpy / list / dict / set / attribute machinery)
 MUTATOR_METHODS = {
@@ -114,6 +121,20 @@ BUILTIN_FRESH = {'len', 'int', 'float', 'str', 'bool', 'list', 'tuple', 'set', '
 BUILTIN_VIEW = {'zip', 'enumerate', 'map', 'filter', 'iter', 'next', 'reversed', 'getattr', 'cast', 'partial'}
 BUILTIN_MUTATORS = {'setattr', 'delattr'}
 
+# pandas methods that accept inplace=
+INPLACE_CAPABLE = {'drop', 'dropna', 'fillna', 'rename', 'sort_values', 'sort_index', 'reset_index', 'set_index',
+                   'replace', 'drop_duplicates', 'query', 'eval', 'where', 'mask', 'clip', 'interpolate', 'ffill',
+                   'bfill', 'set_axis', 'rename_axis'}
+# methods that, applied to a pandas object, give a pandas object (or a scalar) — used ONLY to decide that a
+# local name is frame-typed, i.e. that `name[...] = v` copies v's data instead of keeping a reference to v
+PANDAS_PRODUCERS = {'copy', 'query', 'astype', 'reset_index', 'set_index', 'assign', 'drop', 'dropna', 'fillna',
+                    'rename', 'sort_values', 'sort_index', 'merge', 'join', 'where', 'mask', 'replace',
+                    'drop_duplicates', 'reindex', 'head', 'tail', 'sample', 'transform', 'cumsum', 'diff', 'shift',
+                    'round', 'abs', 'clip', 'squeeze', 'to_frame', 'unstack', 'stack', 'melt', 'pivot', 'agg',
+                    'aggregate', 'apply', 'map', 'isna', 'notna', 'isin', 'first', 'last', 'nth', 'sum', 'mean',
+                    'median', 'min', 'max', 'count', 'std', 'var', 'size', 'cumcount', 'rank', 'groupby'}
+PANDAS_MODULE_PRODUCERS = {'DataFrame', 'Series', 'concat', 'merge', 'read_csv', 'read_table', 'to_numeric',
+                           'to_datetime', 'cut', 'qcut', 'get_dummies', 'crosstab', 'pivot_table', 'melt'}
 DATASET_ATTRS = {'dataset', '_dataset'}
 ALIAS_FUNCS = {'get_and_check_dataset'}
 
@@ -260,6 +281,237 @@ class FunctionTranslator:
             visit(n)
         return names
 
+    # ---- frame-typed locals (syntactic, flow-insensitive, outermost scope only)
+    def infer_frame_locals(self, fn):
+        bindings = {}      # name -> list of value expressions, or None when bound in any other way
+
+        def bad(name):
+            bindings[name] = None
+
+        def add(name, value):
+            if bindings.get(name, []) is not None:
+                bindings.setdefault(name, []).append(value)
+
+        def visit(n):
+            if isinstance(n, (ast.FunctionDef, ast.AsyncFunctionDef)):
+                bad(n.name)
+                # names assigned inside nested functions live in their own scope, but a nested function may
+                # rebind nothing of ours (nonlocal is refused)
+                return
+            if isinstance(n, (ast.Lambda, ast.ListComp, ast.SetComp, ast.DictComp, ast.GeneratorExp)):
+                for sub in ast.walk(n):
+                    if isinstance(sub, ast.NamedExpr) and isinstance(sub.target, ast.Name):
+                        bad(sub.target.id)
+                return
+            if isinstance(n, (ast.Assign, ast.AnnAssign)):
+                targets = n.targets if isinstance(n, ast.Assign) else [n.target]
+                for t in targets:
+                    if isinstance(t, ast.Name):
+                        if n.value is not None:
+                            add(t.id, n.value)
+                    else:
+                        for sub in ast.walk(t):
+                            if isinstance(sub, ast.Name) and isinstance(sub.ctx, ast.Store):
+                                bad(sub.id)
+                if n.value is not None:
+                    visit(n.value)
+                return
+            if isinstance(n, ast.Name) and isinstance(n.ctx, (ast.Store, ast.Del)):
+                bad(n.id)
+            elif isinstance(n, ast.ExceptHandler) and n.name:
+                bad(n.name)
+            elif isinstance(n, (ast.Import, ast.ImportFrom)):
+                for al in n.names:
+                    bad((al.asname or al.name).split('.')[0])
+            elif isinstance(n, (ast.MatchAs, ast.MatchStar)) and getattr(n, 'name', None):
+                bad(n.name)
+            for c in ast.iter_child_nodes(n):
+                visit(c)
+
+        for a in self.arg_names(fn.args):
+            bad(a)
+        for st_ in fn.body:
+            visit(st_)
+        cand = {n for n, v in bindings.items() if v is not None}
+        changed = True
+        while changed:
+            changed = False
+            for n in sorted(cand):
+                if not all(self.frame_producing(v, cand) for v in bindings[n]):
+                    cand.discard(n)
+                    changed = True
+        return cand
+
+    def frame_producing(self, e, cand):
+        if isinstance(e, ast.Constant) and e.value is None:
+            return True
+        if isinstance(e, ast.Name):
+            return e.id in cand
+        if isinstance(e, ast.Attribute):
+            if e.attr in DATASET_ATTRS:
+                return True
+            if e.attr in ('loc', 'iloc', 'at', 'iat', 'T'):
+                return self.frame_producing(e.value, cand)
+            return False
+        if isinstance(e, ast.Subscript):
+            return self.frame_producing(e.value, cand)
+        if isinstance(e, ast.IfExp):
+            return self.frame_producing(e.body, cand) and self.frame_producing(e.orelse, cand)
+        if isinstance(e, ast.Call):
+            f = e.func
+            if isinstance(f, ast.Name):
+                return f.id in ALIAS_FUNCS
+            if isinstance(f, ast.Attribute):
+                if isinstance(f.value, ast.Name) and f.value.id in ('pd', 'pandas'):
+                    return f.attr in PANDAS_MODULE_PRODUCERS
+                return f.attr in PANDAS_PRODUCERS and self.frame_producing(f.value, cand)
+        return False
+
+    def is_frame_expr(self, e):
+        """the expression syntactically denotes a pandas object (only names of the outermost scope count)"""
+        def ok_name(n):
+            for sc in reversed(self.scopes):
+                if n in sc:
+                    return sc is self.scopes[0] and n in self.frame_locals
+            return False
+        cand = {n for n in self.frame_locals if ok_name(n)}
+        if self.frame_producing(e, cand):
+            return True
+        # position-aware: the unique simple assignment that dominates the current statement
+        if len(self.scopes) == 1 and self.cur_stmt is not None and id(self.cur_stmt) in self.stmt_pos:
+            return self.frame_producing_at(e, self.cur_stmt, 0)
+        return False
+
+    # ---- position-aware frame typing: a name is a pandas object at a statement when the nearest binding that
+    # dominates the statement (same block or an enclosing block, nothing in between binds the name, no loop back
+    # edge can rebind it) is a simple assignment of a pandas-producing expression
+    def index_statements(self, fn):
+        self.stmt_pos = {}
+
+        def blocks_of(st):
+            out = []
+            for fld in ('body', 'orelse', 'finalbody'):
+                b = getattr(st, fld, None)
+                if isinstance(b, list) and b and isinstance(b[0], ast.stmt):
+                    out.append(b)
+            for h in getattr(st, 'handlers', []) or []:
+                out.append(h.body)
+            for c in getattr(st, 'cases', []) or []:
+                out.append(c.body)
+            return out
+
+        def walk(block, parent):
+            for i, st in enumerate(block):
+                self.stmt_pos[id(st)] = (block, i, parent)
+                if isinstance(st, (ast.FunctionDef, ast.AsyncFunctionDef, ast.ClassDef)):
+                    continue
+                for b in blocks_of(st):
+                    walk(b, st)
+        walk(fn.body, None)
+
+    def header_binds(self, parent, name):
+        """does the header of a compound statement (test / iter / target / with items / handler names) bind name"""
+        parts = []
+        for fld in ('test', 'iter', 'target', 'subject'):
+            x = getattr(parent, fld, None)
+            if x is not None:
+                parts.append(x)
+        for it in getattr(parent, 'items', []) or []:
+            parts.append(it.context_expr)
+            if it.optional_vars is not None:
+                parts.append(it.optional_vars)
+        if any(name in self.own_bindings([ast.Expr(value=x)]) for x in parts):
+            return True
+        for h in getattr(parent, 'handlers', []) or []:
+            if h.name == name:
+                return True
+        return False
+
+    def reaching(self, name, stmt):
+        cur = stmt
+        while cur is not None:
+            block, idx, parent = self.stmt_pos[id(cur)]
+            for j in range(idx - 1, -1, -1):
+                st = block[j]
+                if (isinstance(st, ast.Assign) and len(st.targets) == 1 and isinstance(st.targets[0], ast.Name)
+                        and st.targets[0].id == name and name not in self.own_bindings([ast.Expr(value=st.value)])):
+                    return st.value, st
+                if (isinstance(st, ast.AnnAssign) and isinstance(st.target, ast.Name) and st.target.id == name
+                        and st.value is not None):
+                    return st.value, st
+                if name in self.own_bindings([st]):
+                    return None
+            if parent is not None:
+                if isinstance(parent, (ast.For, ast.AsyncFor, ast.While)) and name in self.own_bindings([parent]):
+                    return None
+                if isinstance(parent, ast.Try) and block is not parent.body and name in self.own_bindings(parent.body):
+                    return None
+                if self.header_binds(parent, name):
+                    return None
+            cur = parent
+        return None
+
+    def frame_producing_at(self, e, stmt, depth):
+        if depth > 12:
+            return False
+        if isinstance(e, ast.Constant) and e.value is None:
+            return True
+        if isinstance(e, ast.Name):
+            if e.id not in self.scopes[0]:
+                return False
+            r = self.reaching(e.id, stmt)
+            return r is not None and self.frame_producing_at(r[0], r[1], depth + 1)
+        if isinstance(e, ast.Attribute):
+            if e.attr in DATASET_ATTRS:
+                return True
+            if e.attr in ('loc', 'iloc', 'at', 'iat', 'T'):
+                return self.frame_producing_at(e.value, stmt, depth + 1)
+            return False
+        if isinstance(e, ast.Subscript):
+            return self.frame_producing_at(e.value, stmt, depth + 1)
+        if isinstance(e, ast.IfExp):
+            return self.frame_producing_at(e.body, stmt, depth + 1) and self.frame_producing_at(e.orelse, stmt, depth + 1)
+        if isinstance(e, ast.Call):
+            f = e.func
+            if isinstance(f, ast.Name):
+                if f.id in ALIAS_FUNCS:
+                    return True
+                if f.id in self.scopes[0]:
+                    return False
+                tgt = self.world.resolve(self.module, f.id)
+                return tgt is not None and tgt[0] == 'func' and self.world.returns_frame(tgt[1])
+            if isinstance(f, ast.Attribute):
+                if isinstance(f.value, ast.Name) and f.value.id in ('pd', 'pandas') and f.value.id not in self.scopes[0]:
+                    return f.attr in PANDAS_MODULE_PRODUCERS
+                return f.attr in PANDAS_PRODUCERS and self.frame_producing_at(f.value, stmt, depth + 1)
+        return False
+
+    def returns_frame(self):
+        """every `return` of the function (nested functions excluded) gives a pandas object (or None)"""
+        fn = self.node
+        self.scopes = [{n: n for n in self.own_bindings(fn.body, fn.args)}]
+        self.nscopes = 0
+        self.frame_locals = self.infer_frame_locals(fn)
+        self.index_statements(fn)
+        rets = []
+
+        def collect(n):
+            if isinstance(n, (ast.FunctionDef, ast.AsyncFunctionDef, ast.Lambda, ast.ClassDef)):
+                return
+            if isinstance(n, ast.Return):
+                rets.append(n)
+            if isinstance(n, (ast.Yield, ast.YieldFrom)):
+                rets.append(None)
+            for c in ast.iter_child_nodes(n):
+                collect(c)
+        for st_ in fn.body:
+            collect(st_)
+        if not rets or any(r is None or r.value is None for r in rets):
+            return False
+        if all(isinstance(r.value, ast.Constant) for r in rets):
+            return False
+        return all(self.frame_producing(r.value, self.frame_locals) or self.frame_producing_at(r.value, r, 0) for r in rets)
+
     # ---- entry
     def translate(self):
         fn = self.node
@@ -271,6 +523,9 @@ class FunctionTranslator:
         for p in self.params:
             self.var(p)
         self.arity = len(self.params)
+        self.frame_locals = self.infer_frame_locals(fn)
+        self.index_statements(fn)
+        self.cur_stmt = None
         # *args / **kwargs containers are fresh locals; surplus arguments are conservatively bound to EVERY
         # parameter at call sites (see emit_call)
         body = self.block(fn.body)
@@ -288,10 +543,13 @@ class FunctionTranslator:
     def op_copy(self, out, v, ws):
         out.append(f'(Op (Copy {v} {vl(sorted(set(ws)))}))')
 
-    def op_write(self, out, definite, ws, node, what):
+    def op_write(self, out, definite, ws, node, what, attr=False):
+        """write class: 0 = attribute store (obj.a = v, setattr), 1 = other definite in-place mutation,
+        2 = call of code the tables do not know"""
+        c = 0 if attr else (1 if definite else 2)
         for w in sorted(set(ws)):
-            k = self.world.new_write(self.module, self.qualname, getattr(node, 'lineno', 0), definite, what)
-            out.append(f"(Op (Write {'true' if definite else 'false'} {w} {k}))")
+            k = self.world.new_write(self.module, self.qualname, getattr(node, 'lineno', 0), c, what)
+            out.append(f"(Op (Write {c}%nat {w} {k}))")
 
     # ---- expressions: returns the list of vars the value may derive from; appends ops to out
     def names(self, e, out):
@@ -469,13 +727,14 @@ class FunctionTranslator:
                 r += self.inline_nested(c.id, None, out, node, as_value=True, bound=bound)
         return r
 
-    def inplace_kw(self, e):
+    def inplace_kw(self, e, meth=None):
         for k in e.keywords:
             if k.arg == 'inplace':
                 if isinstance(k.value, ast.Constant) and k.value.value is False:
                     return False
                 return True
-            if k.arg is None:
+            if k.arg is None and (meth is None or meth in INPLACE_CAPABLE or
+                                  meth not in (FRESH_METHODS | VIEW_METHODS)):
                 return True          # **kwargs may carry inplace=True
         return False
 
@@ -515,9 +774,13 @@ class FunctionTranslator:
                 return allv + self.run_callables(callables, allv, out, e)
             if f.id in BUILTIN_MUTATORS:
                 if pos:
-                    self.op_write(out, True, pos[0], e, f'{f.id}(...)')
+                    self.op_write(out, True, pos[0], e, f'{f.id}(...)', attr=True)
                 return []
-            # unknown global callable (pharmpy class / function outside the analysed modules, exception class ...)
+            if self.world.is_pharmpy_core(self.module, f.id):
+                # pharmpy core code outside the analysed modules: assumed not to mutate its arguments
+                self.world.trusted_core.add(f.id)
+                return allv + self.run_callables(callables, allv, out, e)
+            # unknown global callable
             self.op_write(out, False, allv, e, f'call of unanalysed {f.id}(...)')
             return allv + self.run_callables(callables, allv, out, e)
         # --- attribute call
@@ -556,6 +819,9 @@ class FunctionTranslator:
                 target = self.world.resolve_attr(self.module, root.id, f)
                 if target is not None:
                     return self.emit_call(target, pos, kws, star, out, e, via_class=True) + self.run_callables(callables, allv, out, e)
+                if self.world.is_pharmpy_core(self.module, root.id):
+                    self.world.trusted_core.add(ast.unparse(f))
+                    return allv + self.run_callables(callables, allv, out, e)
                 self.op_write(out, False, allv, e, f'call of unanalysed {ast.unparse(f)}(...)')
                 return allv + self.run_callables(callables, allv, out, e)
             # method call on an object
@@ -563,7 +829,7 @@ class FunctionTranslator:
             pos, kws, star, callables = self.call_args(e, out)
             allv = [v for p in pos for v in p] + [v for p in kws.values() for v in p] + star
             meth = f.attr
-            if self.inplace_kw(e):
+            if self.inplace_kw(e, meth):
                 self.op_write(out, True, recv, e, f'.{meth}(..., inplace=...)')
                 self.run_callables(callables, recv + allv, out, e)
                 return recv
@@ -705,9 +971,16 @@ class FunctionTranslator:
             base = self.names(t.value, out)
             if isinstance(t, ast.Subscript):
                 self.names(t.slice, out)
-            if isinstance(t, ast.Attribute) and t.attr in DATASET_ATTRS:
+            if (isinstance(t, ast.Attribute) and isinstance(t.value, ast.Name) and t.value.id == 'self'
+                    and self.cls is not None and self.params and self.params[0] == 'self'
+                    and t.attr not in DATASET_ATTRS):
+                # instance field of an analysed class (none of them derives from a pandas class): the instance
+                # is rebound to a new field value, no frame content changes; the instance now reaches vs
                 pass
-            self.op_write(out, True, base, t, 'store into ' + ast.unparse(t)[:60])
+            else:
+                self.op_write(out, True, base, t, 'store into ' + ast.unparse(t)[:60], attr=isinstance(t, ast.Attribute))
+            if isinstance(t, ast.Subscript) and self.is_frame_expr(t.value):
+                return        # DataFrame/Series __setitem__ copies the data in: no reference is retained
             for w in set(base):
                 self.op_move(out, w, [w] + vs)
         else:
@@ -721,7 +994,12 @@ class FunctionTranslator:
         m = getattr(self, 's_' + type(s).__name__, None)
         if m is None:
             self.refuse(s, f'statement {type(s).__name__}')
-        return m(s)
+        saved = getattr(self, 'cur_stmt', None)
+        self.cur_stmt = s
+        try:
+            return m(s)
+        finally:
+            self.cur_stmt = saved
 
     def s_Expr(self, s):
         out = []
@@ -754,9 +1032,11 @@ class FunctionTranslator:
             base = self.names(t.value, out)
             if isinstance(t, ast.Subscript):
                 self.names(t.slice, out)
-            self.op_write(out, True, base, s, 'augmented store into ' + ast.unparse(t)[:60])
-            for w in set(base):
-                self.op_move(out, w, [w] + vs)
+            self.op_write(out, True, base, s, 'augmented store into ' + ast.unparse(t)[:60],
+                          attr=isinstance(t, ast.Attribute))
+            if not (isinstance(t, ast.Subscript) and self.is_frame_expr(t.value)):
+                for w in set(base):
+                    self.op_move(out, w, [w] + vs)
         return Seq(out)
 
     def s_Delete(self, s):
@@ -766,7 +1046,7 @@ class FunctionTranslator:
                 self.op_move(out, self.lvar(t.id, t), [])
             elif isinstance(t, (ast.Subscript, ast.Attribute)):
                 base = self.names(t.value, out)
-                self.op_write(out, True, base, s, 'del ' + ast.unparse(t)[:60])
+                self.op_write(out, True, base, s, 'del ' + ast.unparse(t)[:60], attr=isinstance(t, ast.Attribute))
             else:
                 self.refuse(t, 'del target')
         return Seq(out)
@@ -906,6 +1186,7 @@ class World:
         self.classes = {}      # (module, classname) -> {'bases': [...], 'methods': {name: key}}
         self.imports = {}      # module -> {local name: (module, name)}
         self.writes = []       # write-site table
+        self.trusted_core = set()
         self.sha = {}
         files = sorted((self.src / 'pharmpy' / 'modeling').glob('*.py'))
         files.append(self.src / 'pharmpy' / 'model' / 'external' / 'nonmem' / 'update.py')
@@ -998,6 +1279,23 @@ class World:
                 return self.method_of(r[1], f.attr)
         return None
 
+    def returns_frame(self, key):
+        memo = self.__dict__.setdefault('_returns_frame', {})
+        if key in memo:
+            return memo[key]
+        memo[key] = False            # recursion: assume not
+        node, cls = self.funcs[key]
+        try:
+            r = FunctionTranslator(self, key[0], key[1], node, cls).returns_frame()
+        except Refused:
+            r = False
+        memo[key] = r
+        return r
+
+    def is_pharmpy_core(self, mod, name):
+        tgt = self.imports.get(mod, {}).get(name)
+        return tgt is not None and tgt[0] is not None and tgt[0].startswith('pharmpy') and tgt[0] not in self.modules
+
     def method_of(self, cls, name, skip_own=False, depth=0):
         c = self.classes.get(cls)
         if c is None or depth > 5:
@@ -1037,9 +1335,9 @@ class World:
     def fid(self, key):
         return self.order.index(key) if not hasattr(self, '_fid') else self._fid[key]
 
-    def new_write(self, module, qualname, line, definite, what):
+    def new_write(self, module, qualname, line, cls, what):
         self.writes.append({'k': len(self.writes), 'module': module, 'function': qualname, 'line': line,
-                            'definite': definite, 'what': what})
+                            'class': cls, 'what': what})
         return len(self.writes) - 1
 
     # ---- translate everything
@@ -1093,10 +1391,13 @@ def generate(repo_src, extra_sources=None):
     lines.append(';\n'.join(f"  mkfdef {f['arity']}%nat body_{i}" for i, f in enumerate(fns)))
     lines.append('].')
     lines.append('Definition public_functions : list N := ' + vl([i for _, i in pubs]) + '.')
+    helpers = [i for i, f in enumerate(fns) if f['module'] == 'pharmpy.model.external.nonmem.update']
+    lines.append('(* code generation helpers (reached from every modeling function through model.update_source()) *)')
+    lines.append('Definition codegen_functions : list N := ' + vl(helpers) + '.')
     meta = {
         'functions': [{'id': i, 'module': f['module'], 'qualname': f['qualname'], 'line': f['line'],
                        'params': f['params'], 'arity': f['arity']} for i, f in enumerate(fns)],
-        'writes': world.writes, 'public': pubs, 'unresolved_public': missing, 'sha': world.sha,
+        'writes': world.writes, 'public': pubs, 'codegen': helpers, 'trusted_core': sorted(world.trusted_core), 'unresolved_public': missing, 'sha': world.sha,
     }
     return '\n'.join(lines) + '\n', meta
 
